@@ -36,8 +36,17 @@ ASSUMPTIONS = [
 class Product(Elaboratable):
     def __init__(self, kind, depth, width, nr, nw, transp, gran, init):
         mk = {"multiread": M.MultiReadMemory, "xor": M.MultiportXORMemory, "xor_ilvt": M.MultiportXORILVTMemory, "onehot_ilvt": M.MultiportOneHotILVTMemory}[kind]
+        self.kind = kind
         self.impl = mk(shape=width, depth=depth, init=list(init))
         self.ideal = amem.Memory(shape=width, depth=depth, init=list(init))
+        self.table = None
+        if kind in ("xor_ilvt", "onehot_ilvt"):
+            from amaranth.utils import bits_for
+
+            # ghost component: the ideal "index of the write port that wrote row a last" table
+            self.table = amem.Memory(shape=max(1, bits_for(nw - 1)), depth=depth, init=[])
+            self.tw = [self.table.write_port() for _ in range(nw)]
+            self.tr = [self.table.read_port() for _ in range(nr)]
         self.w = [self.impl.write_port(granularity=gran) if gran else self.impl.write_port() for _ in range(nw)]
         self.iw = [self.ideal.write_port(granularity=gran) if gran else self.ideal.write_port() for _ in range(nw)]
         self.r, self.ir = [], []
@@ -54,6 +63,12 @@ class Product(Elaboratable):
             m.d.comb += [b.addr.eq(a.addr), b.data.eq(a.data), b.en.eq(a.en)]
         for a, b in zip(self.r, self.ir):
             m.d.comb += [b.addr.eq(a.addr), b.en.eq(a.en)]
+        if self.table is not None:
+            m.submodules.ghost_table = self.table
+            for k, (a, b) in enumerate(zip(self.w, self.tw)):
+                m.d.comb += [b.addr.eq(a.addr), b.data.eq(k), b.en.eq(a.en.any())]
+            for a, b in zip(self.r, self.tr):
+                m.d.comb += [b.addr.eq(a.addr), b.en.eq(a.en)]
         return m
 
     def inputs(self):
@@ -65,7 +80,7 @@ class Product(Elaboratable):
         return out
 
     def outputs(self):
-        return [p.data for p in self.r] + [p.data for p in self.ir]
+        return [p.data for p in self.r] + [p.data for p in self.ir] + ([p.data for p in self.tr] if self.table is not None else [])
 
 
 def configs(tier):
@@ -87,6 +102,14 @@ def configs(tier):
         for transp in ("none", "all", "diag"):
             for init in ("empty", "nonempty"):
                 out.append({"kind": "xor", "depth": depth, "width": width, "nr": nr, "nw": nw, "gran": None, "transp": transp, "init": init})
+    ilvts = [(2, 2, 1, 2), (3, 2, 1, 2), (4, 1, 1, 2)] if tier == "quick" else [(2, 2, 1, 2), (3, 2, 1, 2), (4, 1, 1, 2), (4, 3, 2, 2), (3, 2, 1, 3), (2, 2, 2, 3), (5, 2, 1, 2)]
+    for depth, width, nr, nw in ilvts:
+        for transp in ("none", "all", "diag"):
+            for init in ("empty", "nonempty"):
+                for gran in (None, 1):
+                    if gran and (transp == "diag" or init == "nonempty"):
+                        continue
+                    out.append({"kind": "xor_ilvt", "depth": depth, "width": width, "nr": nr, "nw": nw, "gran": gran, "transp": transp, "init": init})
     return out
 
 
@@ -162,7 +185,48 @@ def core_invariant(cfg, prod, hw, corr):
         return z3.BoolVal(True), z3.BoolVal(True)
     if cfg["kind"] == "xor":
         return xor_invariant(cfg, prod.impl, prod.r, prod.ir, prod.ideal, hw, transp_set(cfg["transp"], cfg["nr"], cfg["nw"]))
+    if cfg["kind"] == "xor_ilvt":
+        loc = hw.rec.locals_of(prod.impl)
+        inner = loc["ilvt"]
+        Hx0, Hx1 = xor_invariant(cfg, inner, loc["ilvt_read_ports"], prod.tr, prod.table, hw, set())
+        Ho0, Ho1 = ilvt_outer_invariant(cfg, prod, hw)
+        return z3.And(Hx0, Ho0), z3.And(Hx1, Ho1)
     raise NotImplementedError(cfg["kind"])
+
+
+def ilvt_outer_invariant(cfg, prod, hw):
+    """H for MultiportILVTMemory given the ghost table T: for every row a, T[a] names a bank and that bank's row a is the
+    ideal row; each read port's data output equals the ideal memory's registered read data."""
+    ts = hw.ts
+    impl = prod.impl
+    depth = impl.depth
+    W, R = len(impl.write_ports), len(impl.read_ports)
+    loc = hw.rec.locals_of(impl)
+    named = named_submodules(loc["m"])
+    banks = [named[f"bank_{k}"] for k in range(W)]
+    bank_mem = [ts.memory_of(banks[k].read_ports[0].data) for k in range(W)]
+    ideal_mem = ts.memory_of(prod.ir[0].data)
+    ideal_rp = [ts.readport_key(p.data) for p in prod.ir]
+    table_mem = ts.memory_of(prod.tr[0].data)
+
+    def H(nxt):
+        st = ts.next if nxt else ts.state
+        rows = lambda midx: ts.mem_next_rows[midx] if nxt else ts.mem_rows(midx)
+        T = rows(table_mem)
+        ideal_rows = rows(ideal_mem)
+        cs = []
+        for a in range(depth):
+            cs.append(z3.ULT(N(T[a]), N(W)))
+            sel = rows(bank_mem[W - 1])[a]
+            for k in reversed(range(W - 1)):
+                sel = z3.If(N(T[a]) == k, rows(bank_mem[k])[a], sel)
+            cs.append(ideal_rows[a] == sel)
+        for r in range(R):
+            out_impl = ts.primed(hw.sig(prod.r[r].data)) if nxt else hw.sig(prod.r[r].data)
+            cs.append(out_impl == st[ideal_rp[r]])
+        return z3.And(*cs)
+
+    return H(False), H(True)
 
 
 def xor_invariant(cfg, impl, rports, ideal_rports, ideal, hw, transp):
